@@ -16,10 +16,11 @@ for line in open(os.path.join(ROOT, "tools", "not_applicable.txt")):
         pid, reason = line.split(" ", 1)
         NOT_YET[pid] = reason
 
+READY = set(l.strip() for l in open(os.path.join(ROOT, "tools", "ready.txt")) if l.strip() and not l.startswith("#"))
 checks = []
 for n in range(1, 21):
     pid = "C%02d" % n
-    if not os.path.exists(os.path.join(ROOT, "checks", pid.lower() + ".py")):
+    if pid not in READY or not os.path.exists(os.path.join(ROOT, "checks", pid.lower() + ".py")):
         if pid not in NOT_YET:
             NOT_YET[pid] = "no check built yet for this property (work in progress; see DESIGN.md section 7)"
         continue
